@@ -767,12 +767,24 @@ def r8_google_block_offsets_count_newlines(ctx):
     str.splitlines breaks at, although the source has no line break there).  Every definition of the line list of split_google_docblocks must
     therefore split at '\\n' only -- and all of them alike."""
     rep = ctx.rep
-    f = ctx.func('xdoctest.docstr.docscrape_google.split_google_docblocks')
+    f0 = ctx.func('xdoctest.docstr.docscrape_google.split_google_docblocks')
+    f = f0
+    # the function itself and the module-level helpers it calls (inlining bound 1)
+    hosts = [f0]
+    for c in walk_scope(f0.node):
+        if isinstance(c, ast.Call):
+            r = ctx.res.resolve_call(f0, c)
+            if r[0] == 'repo' and len(r[1]) == 1 and r[1][0].module is f0.module and r[1][0].cls is None and r[1][0] not in hosts:
+                hosts.append(r[1][0])
     defs = []
-    for x in walk_scope(f.node):
-        if isinstance(x, ast.Assign) and len(x.targets) == 1 and isinstance(x.targets[0], ast.Name) and isinstance(x.value, ast.Call) and isinstance(x.value.func, ast.Attribute) \
-                and x.value.func.attr in ('split', 'splitlines') and is_name(x.value.func.value, f.node.args.args[0].arg):
-            defs.append(x)
+    for h in hosts:
+        params = [a.arg for a in h.node.args.args]
+        for x in walk_scope(h.node):
+            if isinstance(x, ast.Assign) and len(x.targets) == 1 and isinstance(x.targets[0], ast.Name) and isinstance(x.value, ast.Call) and isinstance(x.value.func, ast.Attribute) \
+                    and x.value.func.attr in ('split', 'splitlines') and isinstance(x.value.func.value, ast.Name) and \
+                    (x.value.func.value.id in params[:1] or (h is f0 and x.value.func.value.id == params[0])) and \
+                    (x.value.func.attr == 'splitlines' or (x.value.args and isinstance(x.value.args[0], ast.Constant) and x.value.args[0].value in ('\n', '\r\n'))):
+                defs.append(x)
     rep.floor('C08.R8', 'splits of the docstring into lines', len(defs), 1)
     for x in defs:
         c = x.value
